@@ -114,6 +114,7 @@ type Interp struct {
 	xcN, xcDone, xcUnknown int
 	sampled int
 	dumpN   int
+	qcache  map[string]Result
 	pendingModel Model
 	fallbackSat  bool
 	// write monitor
@@ -133,6 +134,7 @@ type Stats struct {
 	Summaries    int
 	IntQ         int
 	Fallbacks    int
+	CacheHits    int
 }
 
 type extFn func(in *Interp, fr *frame, fn *ssa.Function, args []Value) Value
@@ -427,6 +429,13 @@ func (in *Interp) runBlocks(fr *frame) {
 				next = b.Succs[0]
 			case *ssa.If:
 				c := fr.get(ins.Cond).(*Term)
+				if !c.IsConst() && in.cfg != nil && in.cfg.Summaries {
+					if nb, pv, ok := in.mergeShortCircuit(fr, b, c); ok {
+						next = nb
+						b = pv // becomes fr.prev below
+						break
+					}
+				}
 				if in.branch(c, ins) {
 					next = b.Succs[0]
 				} else {
@@ -838,4 +847,114 @@ func hasOpaque(v Value) bool {
 		}
 	}
 	return false
+}
+
+// mergeShortCircuit recognises `a || b` and `a && b` in branch position:
+//   b0: if c1 goto T else B2 ;  B2: <pure scalar instrs> ; if c2 goto T else E     (||)
+//   b0: if c1 goto B2 else E ;  B2: <pure scalar instrs> ; if c2 goto T else E     (&&)
+// and decides the combined condition once instead of forking twice. B2's
+// instructions are side-effect free scalar operations, so evaluating them
+// speculatively is sound. Returns the next block and the block to record as
+// predecessor.
+func (in *Interp) mergeShortCircuit(fr *frame, b0 *ssa.BasicBlock, c1 *Term) (*ssa.BasicBlock, *ssa.BasicBlock, bool) {
+	if _, known := in.known(c1); known {
+		return nil, nil, false
+	}
+	try := func(b2 *ssa.BasicBlock, isOr bool) (*ssa.BasicBlock, *ssa.BasicBlock, bool) {
+		if len(b2.Preds) != 1 || len(b2.Instrs) == 0 {
+			return nil, nil, false
+		}
+		if2, ok := b2.Instrs[len(b2.Instrs)-1].(*ssa.If)
+		if !ok {
+			return nil, nil, false
+		}
+		var T, E *ssa.BasicBlock
+		if isOr {
+			T, E = b0.Succs[0], b2.Succs[1]
+			if b2.Succs[0] != T {
+				return nil, nil, false
+			}
+		} else {
+			T, E = b2.Succs[0], b0.Succs[1]
+			if b2.Succs[1] != E {
+				return nil, nil, false
+			}
+		}
+		// the shared target is entered from either b0 or b2: it must not have phis
+		shared := T
+		if !isOr {
+			shared = E
+		}
+		if len(shared.Instrs) > 0 {
+			if _, isPhi := shared.Instrs[0].(*ssa.Phi); isPhi {
+				return nil, nil, false
+			}
+		}
+		for _, ins := range b2.Instrs[:len(b2.Instrs)-1] {
+			switch x := ins.(type) {
+			case *ssa.BinOp:
+				if !scalarType(x.X.Type()) {
+					return nil, nil, false
+				}
+				switch x.Op.String() {
+				case "/", "%", "<<", ">>":
+					return nil, nil, false
+				}
+			case *ssa.UnOp:
+				if x.Op.String() == "*" || x.Op.String() == "<-" || !scalarType(x.Type()) {
+					return nil, nil, false
+				}
+			case *ssa.Convert:
+				if !scalarType(x.Type()) || !scalarType(x.X.Type()) {
+					return nil, nil, false
+				}
+			case *ssa.Call:
+				callee, ok := x.Call.Value.(*ssa.Function)
+				if !ok || x.Call.Method != nil || !in.pureOK(callee) {
+					return nil, nil, false
+				}
+			case *ssa.DebugRef:
+			default:
+				return nil, nil, false
+			}
+		}
+		// speculative evaluation of B2's pure instructions
+		for _, ins := range b2.Instrs[:len(b2.Instrs)-1] {
+			in.stats.Instrs++
+			if call, ok := ins.(*ssa.Call); ok {
+				args := make([]Value, len(call.Call.Args))
+				for i, a := range call.Call.Args {
+					args[i] = fr.get(a)
+				}
+				fr.set(call, in.evalPure(call.Call.Value.(*ssa.Function), args))
+				continue
+			}
+			in.exec(fr, ins)
+		}
+		c2 := fr.get(if2.Cond).(*Term)
+		var comb *Term
+		if isOr {
+			comb = in.ts.Or(c1, c2)
+		} else {
+			comb = in.ts.And(c1, c2)
+		}
+		taken := in.branch(comb, if2)
+		if isOr {
+			if taken {
+				return T, b0, true
+			}
+			return E, b2, true
+		}
+		if taken {
+			return T, b2, true
+		}
+		return E, b0, true
+	}
+	if nb, pv, ok := try(b0.Succs[1], true); ok {
+		return nb, pv, true
+	}
+	if nb, pv, ok := try(b0.Succs[0], false); ok {
+		return nb, pv, true
+	}
+	return nil, nil, false
 }
